@@ -151,4 +151,18 @@ def tryGetMatchesFrom (similar : Bytes → Bytes → Bool) (depth : Nat) (c : Cm
   doParse similar (depth + 2) (Build.buildAll (depth + 2) c) toks
 
 end Command
+
+/-! ### clap's build assertions, as far as the parser's totality depends on them (decidable form) -/
+
+/-- one level: unique arg ids, positionals without long name or alias, group members that exist -/
+def Cmd.wfLevelB (c : Cmd) : Bool :=
+  decide ((c.args.map (·.id)).Nodup) &&
+  (c.args.all fun a => !a.index.isSome || (a.long.isNone && a.aliases.isEmpty)) &&
+  (c.groups.all fun g => g.args.all fun n => (c.find n).isSome || (c.findGroup n).isSome)
+
+/-- every level of the tree, down to `fuel` levels below the root -/
+def Cmd.wfTreeB : Nat → Cmd → Bool
+  | 0, c => c.wfLevelB && c.subs.isEmpty
+  | n+1, c => c.wfLevelB && c.subs.all (Cmd.wfTreeB n)
+
 end Clap
